@@ -80,7 +80,7 @@ Logged ==
   \/ (Is("TaskReturn") /\ E.t \in DOMAIN tasks /\ tasks[E.t].st = "ret"
         /\ (T_Return(E.t) \/ D_Return(E.t)) /\ tasks'[E.t].res = E.res /\ Mon(E.t))
   \/ (Is("TaskReturn") /\ (IF E.t \in DOMAIN tasks THEN tasks[E.t].st = "returned" ELSE TRUE) /\ Obs0)      \* returned silently before
-  \/ (Is("DiagEmit") /\ \E t \in DOMAIN tasks : tasks[t].d = E.d /\ D_EmitT(t))
+  \/ (Is("DiagEmit") /\ E.t \in DOMAIN tasks /\ tasks[E.t].d = E.d /\ D_EmitT(E.t))
   \/ (Is("Publish") /\ evq # <<>> /\ Head(evq).d = E.d /\ E_Publish)
   \* the client is quiet: every request answered once, texts converged; diagnostics provenance is reported
   \/ (Is("Quiesce") /\ Quiescent /\ (\A i \in sent : resp[i] = 1)
